@@ -19,7 +19,30 @@ func PickFrag(r *PRNG) int {
 }
 
 func SecretByID(id int) []byte {
-	switch id % 7 {
+	long := func() []byte {
+		b := make([]byte, 4096)
+		for i := range b {
+			b[i] = byte(i*7 + 1)
+		}
+		return b
+	}
+	switch id % 12 {
+	case 7: // the long secret with its very last bit flipped
+		b := long()
+		b[len(b)-1] ^= 1
+		return b
+	case 8: // the long secret with one bit flipped a little beyond the size of an SMP exponent
+		b := long()
+		b[200] ^= 0x10
+		return b
+	case 9:
+		return []byte("correct horse battery staple")
+	case 10: // 9 is a prefix of this one
+		return []byte("correct horse battery staples")
+	case 11: // a prefix of the long secret
+		return long()[:300]
+	}
+	switch id % 12 {
 	case 0:
 		return []byte("s3cret")
 	case 1:
@@ -161,4 +184,13 @@ func polFor(version int) int {
 		return PolV3
 	}
 	return PolV2 | PolV3
+}
+
+// textAlphabet draws the character class of a user text: mostly plain, sometimes a text that
+// itself looks like protocol (query, error, encoded message) or ends in blanks.
+func textAlphabet(r *PRNG) int {
+	if r.Chance(1, 5) {
+		return 2 + r.Intn(4)
+	}
+	return r.Intn(2)
 }
